@@ -156,6 +156,25 @@ def run(shard, rec):
             else:
                 fx = [v / 4 for v in xs if abs(v) < 400][:12] or [0.5]
                 check_sorted(fx, what + ' secfxp', case, typ=secfxp)
+                # fixed-point records [label, x, y] (whole-number label, fractional coordinates) ordered by a computed key x*x + y*y
+                k_ = min(6, max(3, n))
+                pts = []
+                while len(pts) < k_:
+                    cand = (rng.randrange(1, 60) / 10, rng.randrange(1, 60) / 10)
+                    d2 = cand[0] ** 2 + cand[1] ** 2
+                    if all(abs(d2 - (a * a + b * b)) > 0.5 for a, b in pts):
+                        pts.append(cand)
+                recs_ = [[secfxp(float(i)), secfxp(a), secfxp(b)] for i, (a, b) in enumerate(pts)]
+                with rec.guard(what + ' secfxp records by computed key', case, {'fn': 'sorted-records-fxp', 'mechanism': 'exception'}):
+                    srt = mpc.sorted(recs_, key=lambda r: r[1] * r[1] + r[2] * r[2])
+                    got = [[float(v) for v in out(row)] for row in srt]
+                    rec.count('sorted_checked')
+                    rec.count('fxp_record_sorts')
+                    order = sorted(range(k_), key=lambda i: pts[i][0] ** 2 + pts[i][1] ** 2)
+                    exp_rows = [[float(i), pts[i][0], pts[i][1]] for i in order]
+                    if len(got) != k_ or any(abs(g - e) > 0.01 for gr, er in zip(got, exp_rows) for g, e in zip(gr, er)):
+                        rec.violation(f'{what}: records {[[i, a, b] for i, (a, b) in enumerate(pts)]} sorted by x*x+y*y give {got}, expected {exp_rows}',
+                                      {'fn': 'sorted-records-fxp', 'mechanism': 'wrong-result'}, {'case': case}, case=case)
             if n <= 12:
                 check_select(xs, what, case)
             rec.case(case, nontrivial=n >= 3 and xs != sorted(xs), sample={'fn': ['sorted', 'sorted-reverse', 'sorted-key', 'records', 'seclist.sort', 'secfxp'][variant], 'input': xs[:10]} if ci < 6 else None)
